@@ -5,7 +5,9 @@ import "verif/engine/sym"
 func init() {
 	props["C13"] = &Prop{
 		ID: "C13", PkgDir: "interp", PkgPath: interpPath, PkgName: "interp",
-		Harness:    []string{"interp_common.go", "C13.go"},
+		Harness:    []string{"interp_common.go", "C13.go", "C13_exit.go"},
+		InlinePkgs: []string{"github.com/traefik/yaegi/stdlib"},
+		InitFiles:  map[string][]string{"github.com/traefik/yaegi/stdlib": {".go"}},
 		Instrument: runidInstr,
 		Solver:     "cvc5",
 		Setup: func(e *sym.Engine) {
@@ -20,10 +22,14 @@ func init() {
 				r = append(r, Oblig{Harness: "vh_C13_env", Globals: map[string]int{"vhEnvOp": op}, Unroll: 20})
 			}
 			r = append(r, Oblig{Harness: "vh_C13_io", Unroll: 8})
+			r = append(r, Oblig{Harness: "vh_C13_table", Unroll: 400})
+			for f := 0; f <= 6; f++ {
+				r = append(r, Oblig{Harness: "vh_C13_exit", Unroll: 8, Globals: map[string]int{"vhExitFn": f}})
+			}
 			return r
 		},
-		Bounds:      []string{"initial virtual environment: two arbitrary entries (keys, values: words of 0..4 bytes over [abcXYZ_=])", "one operation with arbitrary key/value, then an arbitrary probe key (one inductive step)", "ExpandEnv on the fixed pattern <$abc|${XYZ}>"},
-		Assumptions: []string{"host functions of os, fmt are opaque and recorded", "binPkg[os] initially bound to the host functions"},
-		Outside:     []string{"absence of unsafe/syscall/os/exec from the default table and the import forms", "os.Args, flag, log redirection", "Options.Env parsing in New", "exit calls (stdlib/restricted.go)"},
+		Bounds:      []string{"initial virtual environment: two arbitrary entries (keys, values: words of 0..4 bytes over [abcXYZ_=])", "one operation with arbitrary key/value, then an arbitrary probe key (one inductive step)", "ExpandEnv on the fixed pattern <$abc|${XYZ}>", "exit overrides: any exit code (int), message of 1..4 bytes, one call per entry point (7 entry points)", "default table: every initialiser of package stdlib for the toolchain's Go release"},
+		Assumptions: []string{"host functions of os, fmt are opaque and recorded", "binPkg[os] initially bound to the host functions", "host log.Panic* functions are opaque: reaching exactly one of them counts as the panic"},
+		Outside:     []string{"the import forms (gta import handling)", "os.Args, flag, log redirection", "Options.Env parsing in New", "os.FindProcess"},
 	}
 }
